@@ -291,6 +291,14 @@ def replaceAll (a b s : Str) : Str := replaceFuel a b (s.length + 1) s
 def asciiAlpha (c : Char) : Bool := ('a' ≤ c && c ≤ 'z') || ('A' ≤ c && c ≤ 'Z')
 def asciiDigit (c : Char) : Bool := '0' ≤ c && c ≤ '9'
 def asciiAlnum (c : Char) : Bool := asciiAlpha c || asciiDigit c
+def asciiUpper (c : Char) : Bool := 'A' ≤ c && c ≤ 'Z'
+def asciiLower (c : Char) : Bool := 'a' ≤ c && c ≤ 'z'
+
+/-- the items of a list when all of them are texts (`sep.join(items)` raises `TypeError` otherwise) -/
+def strItems : List PyV → Option (List Str)
+  | [] => some []
+  | .str w :: r => (match strItems r with | some ws => some (w :: ws) | none => none)
+  | _ :: _ => none
 
 /-! ### dicts: insertion-ordered association lists, keys compared with `==` -/
 
@@ -329,6 +337,27 @@ def callMethod (x : Val) (m : String) (args : List Val) : Except PyErr Val :=
       (match args with
        | [] => .ok (.py (.bool (!s.isEmpty && s.all asciiAlnum)))
        | _ => .error .typeError)
+    else if m = "strip" then
+      (match args with
+       | [] => .ok (.py (.str (strip s)))
+       | _ => .error (unsupported "strip with an argument"))
+    else if m = "isupper" then
+      (match args with
+       | [] => .ok (.py (.bool (s.any asciiUpper && s.all (fun c => !asciiLower c))))
+       | _ => .error .typeError)
+    else if m = "split" then
+      (match args with
+       | [.py (.str [c])] => .ok (.list ((splitChar c s).map .str))
+       | _ => .error (unsupported "split on something else than one character"))
+    else if m = "index" then
+      (match args with
+       | [.py (.str [c])] => if c ∈ s then .ok (.py (.int (s.idxOf c))) else .error .valueError
+       | _ => .error (unsupported "index of something else than one character"))
+    else if m = "join" then
+      (match args with
+       | [.list vs] => (match strItems vs with | some ws => .ok (.py (.str (joinWith s ws))) | none => .error .typeError)
+       | [.tuple vs] => (match strItems vs with | some ws => .ok (.py (.str (joinWith s ws))) | none => .error .typeError)
+       | _ => .error (unsupported "join of something else than a list"))
     else if m = "replace" then
       (match args with
        | [.py (.str a), .py (.str b)] =>
@@ -499,6 +528,13 @@ def builtin (parseInt : Str → Except PyErr Int) (f : String) (args : List Val)
     match args with
     | [x] => pyLen x
     | _ => .error .typeError
+  else if f = "list" then
+    match args with
+    | [] => .ok (.list [])
+    | [.py (.str s)] => .ok (.list (s.map (fun c => .str [c])))
+    | [.list vs] => .ok (.list vs)
+    | [.tuple vs] => .ok (.list vs)
+    | _ => .error (unsupported "list")
   else .error (.other "NameError")
 
 /-! ### syntax -/
@@ -536,6 +572,8 @@ def Expr.makesNew : Expr → Bool
   | .newList => true
   | .newDict => true
   | .newLock => true
+  | .call f _ => f = "list"         -- the builtin `list(x)` (the guard `aliasOK` checks that no function of the module hides it)
+  | .meth _ m _ => m = "split"      -- `text.split(sep)` (a method of `self` never returns a mutable object: `eval`)
   | _ => false
 
 /-- Is the expression a plain local variable? -/
@@ -560,6 +598,8 @@ inductive Stmt where
   | setAttr (o f : String) (e : Expr)                   -- o.f = e
   | setItem (o f : String) (k v : Expr)                 -- o.f[k] = v
   | delItem (o f : String) (k : Expr)                   -- del o.f[k]
+  | varCall (x m : String) (args : List Expr)           -- x.m(args) as a statement, x a local variable (a list)
+  | setItemVar (x : String) (k v : Expr)                -- x[k] = v, x a local variable (a dict)
 inductive Handler where
   | mk (type : Option String) (body : List Stmt)        -- `except:` (none) / `except T:` (some T)
   | mkAs (type : String) (name : String) (body : List Stmt)   -- `except T as name:`
@@ -599,13 +639,15 @@ def whileLoop (cond : Env → Except PyErr Val) (body : Env → Env × Res) : Na
          | r => r)
       else (env, .next)
 
-/-- `for x in items: body`, `bind` being the assignment to the loop variable. -/
-def forLoop (bind : Env → Val → Env) (body : Env → Env × Res) : List Val → Env → Env × Res
+/-- `for x in items: body`, `bind` being the assignment to the loop variable.  `same env'` says that the list iterated over
+still is what it was when the loop started (Python iterates over the live list: this interpreter over the items it had at the
+start, which is the same thing as long as `same` holds whenever the next item is fetched); otherwise the interpreter gives up. -/
+def forLoop (bind : Env → Val → Env) (body : Env → Env × Res) (same : Env → Bool) : List Val → Env → Env × Res
   | [], env => (env, .next)
   | v :: vs, env =>
     match body (bind env v) with
-    | (env', .next) => forLoop bind body vs env'
-    | (env', .cont) => forLoop bind body vs env'
+    | (env', .next) => if same env' then forLoop bind body same vs env' else (env', .abort "for: the list iterated over was changed")
+    | (env', .cont) => if same env' then forLoop bind body same vs env' else (env', .abort "for: the list iterated over was changed")
     | (env', .brk) => (env', .next)
     | r => r
 
@@ -635,8 +677,10 @@ def assocSet {α : Type} : List (String × α) → String → α → List (Strin
   | [], x, v => [(x, v)]
   | (y, w) :: r, x, v => if y = x then (x, v) :: r else (y, w) :: assocSet r x v
 
-/-- May the value `v` of the expression `e` get a further name?  Not when it is a mutable object that `e` did not create. -/
-def aliasOK (e : Expr) (v : Val) : Bool := !v.mutable || e.makesNew
+/-- May the value `v` of the expression `e` get a further name?  Not when it is a mutable object that `e` did not create
+(`list(x)` creates one when `list` is the builtin, i.e. no function of the module has that name). -/
+def aliasOK (cx : Ctx) (e : Expr) (v : Val) : Bool :=
+  !v.mutable || (e.makesNew && (match e with | .call f _ => (cx.funs f).isNone | _ => true))
 
 /-- The field `o.f`. -/
 def getField (env : Env) (o f : String) : Except PyErr Field :=
@@ -699,7 +743,13 @@ def eval (cx : Ctx) (env : Env) : Expr → Except PyErr Val
         | .error err => .error err
         | .ok vs =>
           (match x with
-           | .obj _ => (match cx.selfMeth m with | some g => g vs | none => .error (.other "AttributeError"))
+           | .obj _ =>
+             (match cx.selfMeth m with
+              | some g =>
+                (match g vs with
+                 | .ok r => if r.mutable then .error (unsupported "a method of self returning a mutable object") else .ok r
+                 | .error err => .error err)
+              | none => .error (.other "AttributeError"))
            | _ => callMethod x m vs)))
   | .global x => (match cx.globals x with | some v => .ok v | none => .error (.other "NameError"))
   | .binop op a b =>
@@ -748,7 +798,7 @@ def execS (cx : Ctx) (env : Env) : Stmt → Env × Res
   | .pass => (env, .next)
   | .assign x e =>
     (match eval cx env e with
-     | .ok v => if aliasOK e v then (assocSet env x v, .next) else (env, .exc (unsupported "a second name for a mutable object"))
+     | .ok v => if aliasOK cx e v then (assocSet env x v, .next) else (env, .exc (unsupported "a second name for a mutable object"))
      | .error err => (env, .exc err))
   | .expr e => (match eval cx env e with | .ok _ => (env, .next) | .error err => (env, .exc err))
   | .ret e => (match eval cx env e with | .ok v => (env, .ret v) | .error err => (env, .exc err))
@@ -770,7 +820,8 @@ def execS (cx : Ctx) (env : Env) : Stmt → Env × Res
         | none => (env, .exc .typeError)
         | some items =>
           if !v.mutable || it.isVar || it.makesNew then
-            forLoop (fun env v => assocSet env x v) (fun env => execL cx env body) items env
+            forLoop (fun env v => assocSet env x v) (fun env => execL cx env body)
+              (fun env' => !v.mutable || !it.isVar || decide (eval cx env' it = .ok v)) items env
           else (env, .exc (unsupported "iteration over a field that the loop could change"))))
   | .brk => (env, .brk)
   | .cont => (env, .cont)
@@ -791,7 +842,7 @@ def execS (cx : Ctx) (env : Env) : Stmt → Env × Res
        (match v.toField with
         | none => (env, .exc (unsupported "field value"))
         | some fv =>
-          if aliasOK e v then
+          if aliasOK cx e v then
             (match putField env o f fv with
              | (env', true) => (env', .next)
              | (_, false) => (env, .exc (unsupported "attribute of something else than self")))
@@ -828,6 +879,35 @@ def execS (cx : Ctx) (env : Env) : Stmt → Env × Res
              else (env, .exc (unsupported "dict key"))
            | _ => (env, .exc (unsupported "dict key")))
         | .ok _ => (env, .exc (unsupported "item deletion"))))
+  | .varCall x m args =>
+    (match evalList cx env args with
+     | .error err => (env, .exc err)
+     | .ok vs =>
+       (match env.lookup x with
+        | none => (env, .exc (.other "UnboundLocalError"))
+        | some xv =>
+          (match xv.toField with
+           | none => (env, .exc (unsupported "statement method of an object"))
+           | some fv =>
+             (match mutCall fv m vs with
+              | .error err => (env, .exc err)
+              | .ok fv' => (assocSet env x fv'.toVal, .next)))))
+  | .setItemVar x k v =>
+    (match eval cx env v with
+     | .error err => (env, .exc err)
+     | .ok vv =>
+       (match eval cx env k with
+        | .error err => (env, .exc err)
+        | .ok kv =>
+          (match env.lookup x with
+           | none => (env, .exc (.other "UnboundLocalError"))
+           | some (.dict kvs) =>
+             (match kv, vv with
+              | .py k', .py v' =>
+                if hashable k' then (assocSet env x (.dict (dSet kvs k' v')), .next)
+                else (env, .exc (unsupported "dict key"))
+              | _, _ => (env, .exc (unsupported "dict of objects")))
+           | some _ => (env, .exc (unsupported "item assignment")))))
 def execL (cx : Ctx) (env : Env) : List Stmt → Env × Res
   | [] => (env, .next)
   | s :: ss =>
